@@ -1084,6 +1084,79 @@ def _register_ml():
 _register_ml()
 
 
+
+# =====================================================================================
+# call history: the result for a series does not depend on what was analysed before
+# =====================================================================================
+# The property quantifies over data sets, for each analyser: analyze() is a function of the data handed in.  State that
+# survives a call (class attributes, mutable default arguments such as `fixed_parameters={}`, caches on the accessor) would
+# make the result of series B depend on a series A analysed earlier in the same process.  The paths that write such state
+# are the 'fixing' paths of MaxLikeFull: fewer than two mixed levels (TS pre-set from the pearl chain) and no run-outs
+# (SD = 0, TS = 1 pre-set), so A is drawn from exactly these kinds.
+def _same(a, b):
+    if a[0] != b[0]:
+        return False
+    if a[0] == "ValueError":
+        return a[1] == b[1]
+    return all(a[1][k_] == b[1][k_] or (math.isnan(a[1][k_]) and math.isnan(b[1][k_])) for k_ in a[1]) and sorted(a[2]) == sorted(b[2])
+
+
+def _history_run(names):
+    def run(case, ctx):
+        A, B = case["A"], case["B"]
+        sB = structure(B)
+        label_structure(ctx, sB)
+        if "MaxLikeFull" in names and collinear(B):
+            ctx.skip("collinear finite zone: likelihood unbounded")
+        before = {nm: analyse(nm, B) for nm in names}
+        took = False
+        for nm in names:
+            ra = analyse(nm, A)
+            if ra[0] == "ValueError":
+                ctx.tolerate("%s (series A): ValueError %s" % (nm, ra[1][:50]))
+            else:
+                for w in ra[2]:
+                    if "less than two mixed" in w or "no runouts" in w:
+                        took = True
+                        ctx.label("A:" + ("TS_preset" if "less than two" in w else "SD_TS_preset"))
+        after = {nm: analyse(nm, B) for nm in names}
+        for nm in names:
+            # same data, same process, deterministic arithmetic: the two results must be identical to the last bit
+            if not _same(before[nm], after[nm]):
+                raise Violation("%s: series B analysed before and after an unrelated series A gives different results: %r / %r" % (
+                    nm, before[nm][1], after[nm][1]), bucket="history:%s" % nm)
+            if before[nm][0] == "ValueError":
+                ctx.tolerate("%s (series B): ValueError %s" % (nm, before[nm][1][:50]))
+        if (took or "MaxLikeFull" not in names) and len(sB["levels"]) >= 3 and sB["n_runouts"] >= 1:
+            ctx.nontrivial()
+    return run
+
+
+def _history_cases(a_kind, b_modes, variant):
+    @st.composite
+    def strat(draw, tier):
+        if a_kind == "no_runouts":
+            A = [r for r in draw(_datasets(tier, mode="mixed1", variant=variant))["rows"] if r[2]]
+        elif a_kind == "one_mixed":
+            A = draw(_datasets(tier, mode="mixed1", variant=variant, force_runout=True))["rows"]
+        else:
+            A = draw(_datasets(tier, mode=draw(st.sampled_from(["any", "wild", "mixed1"])), variant=variant))["rows"]
+        B = draw(_datasets(tier, mode=draw(st.sampled_from(b_modes)), variant=variant + 3, force_runout=a_kind != "free"))["rows"]
+        return {"A": A, "B": B}
+    return strat
+
+
+subcheck(PROP, "mlfull_history_one_mixed_level", strategy=_history_cases("one_mixed", ["mixed2"], 2), quick=2, thorough=30,
+         doc="MaxLikeFull (and the other analysers): B, then A with one mixed level (TS pre-set path), then B again: identical results")(
+    _history_run(["MaxLikeFull", "MaxLikeInf", "Elementary", "Probit"]))
+subcheck(PROP, "mlfull_history_no_runouts", strategy=_history_cases("no_runouts", ["mixed2", "mixed1"], 4), quick=1, thorough=30,
+         doc="MaxLikeFull (and the other analysers): B, then A without run-outs (SD, TS pre-set path), then B again: identical results")(
+    _history_run(["MaxLikeFull", "MaxLikeInf", "Elementary", "Probit"]))
+subcheck(PROP, "history_closed", strategy=_history_cases("free", ["any", "mixed2"], 0), quick=120, thorough=5000,
+         doc="Elementary, Probit, MaxLikeInf: B, any A, B again: identical results")(
+    _history_run(["Elementary", "Probit", "MaxLikeInf"]))
+
+
 # the expensive lanes are scheduled first (the framework starts tasks in registration order)
 def _expensive_first():
     from ..core import REGISTRY
